@@ -155,6 +155,12 @@ func evalC05(cs *c05Case) (vs []*Violation, ok bool) {
 		if h := m.HL.GetHdr(t); h != nil && !h.Missing() {
 			if li, ok := firstLine[t]; ok {
 				chkHdr(h, li, "first-of-type")
+				// the shortcut describes the same line as the stored header: same name and value extents
+				if li < stored {
+					if sh := &m.HL.Hdrs[li]; sh.Name != h.Name || sh.Val != h.Val || sh.Type != h.Type {
+						add("first-of-type-describes-its-line", "differs-from-stored-header", fmt.Sprintf("type %v line %d: shortcut name %v val %v, stored name %v val %v", t, li, h.Name, h.Val, sh.Name, sh.Val))
+					}
+				}
 			}
 		}
 	}
